@@ -39,6 +39,11 @@
 #include "tuklib_mbstr_nonprint.h"
 #include "tuklib_exit.h"
 
+#if defined(TUKAANI_PROJECT_XZ_VERIF) && !defined(VERIF_XZDEC_LOOP_CONTRACT)
+// Verification hook: /verif's harness defines this to a CBMC loop contract.
+#	define VERIF_XZDEC_LOOP_CONTRACT
+#endif
+
 #ifdef TUKLIB_DOSLIKE
 #	include <fcntl.h>
 #	include <io.h>
@@ -194,7 +199,11 @@ uncompress(lzma_stream *strm, FILE *file, const char *filename)
 
 	lzma_action action = LZMA_RUN;
 
+#ifdef TUKAANI_PROJECT_XZ_VERIF
+	while (true) VERIF_XZDEC_LOOP_CONTRACT {
+#else
 	while (true) {
+#endif
 		if (strm->avail_in == 0) {
 			strm->next_in = in_buf;
 			strm->avail_in = fread(in_buf, 1, BUFSIZ, file);
